@@ -268,6 +268,13 @@ func buildNegCases() []negCase {
 				negObj("Foo", &j5sgen.Prop{Name: "d", Field: &j5sgen.Field{Kind: j5sgen.FObject, Ref: &j5sgen.TRef{Kind: j5sgen.RRef, Pkg: "dep", Schema: "Dep"}}}))}},
 		}}, "foo.v1"},
 	}
+	// a status written with the entity's status prefix: the enum keeps the name as written, findStatus
+	// prefixes it once more, so the default filter names no value of the status enum
+	out = append(out, one("entity-default-filter-prefixed-status", &j5sgen.Elem{Kind: j5sgen.KEntity, Entity: &j5sgen.Entity{Name: "Foo",
+		Keys:     []*j5sgen.EKey{{Prop: &j5sgen.Prop{Name: "fooId", Field: &j5sgen.Field{Kind: j5sgen.FKey, Fmt: "id62", EntKey: &j5sgen.EntKey{Kind: "primary", Primary: true}}}}},
+		Statuses: []string{"FOO_STATUS_ACTIVE", "DONE"},
+		Events:   []*j5sgen.Object{{Name: "Create"}},
+		Query:    &j5sgen.Query{Filters: []string{"FOO_STATUS_ACTIVE"}}}}))
 	return out
 }
 
@@ -481,9 +488,14 @@ func genTotalRandom(h *vh.H) string {
 		sc := vh.Pick(h, semCases)
 		return srcOp("semmut", "foo/v1/a.j5s", mutateTokens(h, sc.text), &j5sgen.Bundle{})
 	default:
+		if h.Chance(1, 2) {
+			// several packages: imports by name / alias / segment, same short type name in two packages
+			cfg.MaxPkgs = 3
+			g = j5sgen.New(h.Rng, cfg)
+		}
 		b := g.Bundle()
 		style := 1 + h.Rng.Uint64N(1<<30)
-		return fmt.Sprintf("total.ast %s %s %d", b.Sexp().String(), j5sgen.S(b.Pkgs[0].Name).String(), style)
+		return fmt.Sprintf("total.ast %s %s %d", b.Sexp().String(), j5sgen.S(b.Pkgs[len(b.Pkgs)-1].Name).String(), style)
 	}
 }
 
